@@ -290,4 +290,26 @@ PROPS = {
                       "Everything else of the property is evaluated on the implementation at every text / reference position.",
         "level_note": "Partial: text_excludes_marker and range_exact are checked on the implementation only.",
     },
+    "C03": {
+        "runner": "RunEngine",
+        "timeout": 3000,
+        "theorems": ["C03_parser_rows_are_completable", "C03_kept_residual_has_completion",
+                     "C03_allowed_lexemes_are_wanted", "C03_unrestricted_statement_refuted"],
+        "rule": "productive CFGs over non-confusable terminals and JSON schemas (numeric ranges, multipleOf, length bounds, formats, "
+                "enums, arrays, objects, allOf/anyOf) x byte-complete vocabularies; mask-guided walks; at every visited state: the "
+                "mask is never empty, a failing compute_mask / stop happens only in an accepting state, and an exhaustive depth-first "
+                "search over the byte-level engine of the same grammar looks for a completion of at most 64 bytes (Some(false) = whole "
+                "tree explored without an accepting state = reported; budget exhausted = inconclusive, counted, never reported). "
+                "Corpus first (the known greedy-lexeme-conflict grammar). non-trivial = walks longer than one token",
+        "trusted_base": ["modelled, not verified: Earley rows and lexer residuals (coq/Earley.v, Lexer.v, Regex.v); "
+                         "the general lex_faithful case is not proved: the theorems cover the parser half (lexeme level) and the "
+                         "lexer's emptiness filter; the bytes-to-lexemes glue rests on the correspondence of C01/C05"],
+        "assumptions": ["every visited state of the generated families has a completion of at most 64 bytes if it has one at all "
+                        "(walks are at most 5 tokens over small grammars)"],
+        "level_text": "Theorems: in a productive grammar every lexeme sequence the recogniser keeps going on can be completed; the lexer "
+                      "keeps only residuals with a completion and is started only with lexemes some item wants. The unrestricted statement "
+                      "is refuted in the model (machine-checked witness) and listed as a known finding. Implementation: exact checks for "
+                      "empty masks / non-accepting stops, exhaustive bounded completion search at every visited state.",
+        "level_note": "Partial: no theorem at byte level for general lex_faithful grammars; known finding: greedy lexeme conflict.",
+    },
 }
